@@ -519,6 +519,14 @@ func (p *Posix) DeleteBucket(_ context.Context, bucket string) error {
 		return fmt.Errorf("remove bucket: %w", err)
 	}
 	verifhook.At("delbucket.removed", bucket)
+	// The bucket's own attributes (acl, policy, tags, versioning and lock
+	// settings) go with it. Extended attributes went with the directory; a
+	// sidecar store keeps them elsewhere, where they would come back to
+	// life with the next bucket of that name.
+	err = p.meta.DeleteAttributes(bucket, "")
+	if err != nil {
+		return fmt.Errorf("remove bucket attributes: %w", err)
+	}
 	// Remove the bucket from versioning directory
 	if p.versioningEnabled() {
 		err = os.RemoveAll(filepath.Join(p.versioningDir, bucket))
